@@ -189,6 +189,31 @@ def run(args):
                 R.spec_fail(dict(kind="mask-frame"), "MaskedTransform changed an unmasked entry", meta, float(ym[i]))
             if mask[i] and not (float(ym[i]) == float(yf[i]) or (math.isnan(ym[i]) and math.isnan(yf[i]))):
                 R.spec_fail(dict(kind="mask-apply"), "MaskedTransform differs from the transform on a masked entry", meta, float(ym[i]))
+        # inverse through the mask, on values that need not lie in the range of the inner transform (the unmasked entries of a
+        # parameter vector are arbitrary numbers): unmasked entries pass through bit-identically, masked ones get the inner inverse
+        ys = np.concatenate([rng.uniform(-200, 200, 10), yf[:10]])
+        ys[int(rng.integers(0, 10))] = float(rng.choice([1e6, -1e6, 0.0, 150.0, -70.0]))
+        inner = np.asarray(chain.inverse(jnp.asarray(ys)), dtype=np.float64)
+        for label, fn in (("eager", mtf.inverse), ("jit", jax.jit(mtf.inverse))):
+            got = np.asarray(fn(jnp.asarray(ys)), dtype=np.float64)
+            for i in range(20):
+                R.evaluations += 1
+                meta = dict(chain=[p[2] for p in parts], y=float(ys[i]), mask=bool(mask[i]), mode=label)
+                if not mask[i] and not (f2b(float(got[i])) == f2b(float(ys[i]))):
+                    R.spec_fail(dict(kind="mask-frame", direction="inverse"), f"MaskedTransform.inverse ({label}) changed an unmasked entry {ys[i]!r} -> {got[i]!r}", meta, float(got[i]))
+                if mask[i] and label == "eager" and not (float(got[i]) == float(inner[i]) or (math.isnan(got[i]) and math.isnan(inner[i]))):   # jit may fuse differently: frame only
+                    R.spec_fail(dict(kind="mask-apply", direction="inverse"), f"MaskedTransform.inverse ({label}) differs from the inner inverse on a masked entry", meta, float(got[i]))
+        wide = np.concatenate([rng.uniform(-800, 800, 10), xs[:10]])
+        fw_in = np.asarray(chain.forward(jnp.asarray(wide)), dtype=np.float64)
+        for label, fn in (("eager", mtf.forward), ("jit", jax.jit(mtf.forward))):
+            got = np.asarray(fn(jnp.asarray(wide)), dtype=np.float64)
+            for i in range(20):
+                R.evaluations += 1
+                meta = dict(chain=[p[2] for p in parts], x=float(wide[i]), mask=bool(mask[i]), mode=label)
+                if not mask[i] and not (f2b(float(got[i])) == f2b(float(wide[i]))):
+                    R.spec_fail(dict(kind="mask-frame", direction="forward"), f"MaskedTransform.forward ({label}) changed an unmasked entry {wide[i]!r} -> {got[i]!r}", meta, float(got[i]))
+                if mask[i] and label == "eager" and not (float(got[i]) == float(fw_in[i]) or (math.isnan(got[i]) and math.isnan(fw_in[i]))):   # jit may fuse differently: frame only
+                    R.spec_fail(dict(kind="mask-apply", direction="forward"), f"MaskedTransform.forward ({label}) differs from the inner transform on a masked entry", meta, float(got[i]))
         R.count(f"chain:len{n}")
     # ------------------------------------------------------------ ParamTransform: each transform hits exactly its own entry
     for t in range(ntf):
